@@ -57,9 +57,13 @@ def generate(prop, rng):
             ops.append({"op": o, "file": rng.randrange(nfiles), "what": rng.choice(["other_algo", "newer_version", "legacy_name"])})
         else:
             kind = gen.weighted(rng, [(3, "get"), (4, "get_many"), (3, "hash_file"), (3, "build_dry"), (2, "build_entries"),
-                                      (2, "snap_index"), (2, "update_check"), (1, "nonlocal")])
-            ops.append({"op": o, "kind": kind, "file": rng.randrange(nfiles), "with_info": rng.random() < 0.5,
-                        "subset": rng.random()})
+                                      (2, "snap_index"), (2, "update_check"), (1, "nonlocal"), (2, "hash_file_legacy")])
+            q = {"op": o, "kind": kind, "file": rng.randrange(nfiles), "with_info": rng.random() < 0.5,
+                 "subset": rng.random()}
+            if kind in ("build_dry", "build_entries") and not big and rng.random() < 0.35:
+                # the user rewrites a file WHILE the directory is being hashed
+                q["mid"] = {"file": rng.randrange(nfiles), "after_reads": rng.randint(1, 4), "same_len": rng.random() < 0.5}
+            ops.append(q)
     return {"prop": prop, "cfg": cfg, "files": files, "ops": ops}
 
 
@@ -148,7 +152,7 @@ def execute(sc, ctx):
 
     def fresh(tag, length=None):
         gen_n[0] += 1
-        b = b"v%d-%d;" % (gen_n[0], tag)
+        b = b"v%d-%d;\r\n" % (gen_n[0], tag)
         if length is not None:
             b = (b * (length // len(b) + 1))[:length] if length else b""
             if length and b == b"":
@@ -246,7 +250,8 @@ def execute(sc, ctx):
             if op["what"] == "other_algo":
                 state.save(p, fs, HashInfo("sha256", "0" * 64), info=info)
             elif op["what"] == "legacy_name":
-                state.save(p, fs, HashInfo("md5-dos2unix", "f" * 32), info=info)
+                # a VALID row of the legacy algorithm (its digest differs from md5: contents carry CRLF)
+                state.save(p, fs, HashInfo("md5-dos2unix", model.ref_digest("md5-dos2unix", cur[i])), info=info)
             else:
                 from dvc_data.hashfile.state import _checksum
 
@@ -260,6 +265,25 @@ def execute(sc, ctx):
         kind = op["kind"]
         i = op["file"]
         p = path(i)
+        mid_touched = set()
+        if op.get("mid") and kind in ("build_dry", "build_entries"):
+            mid = op["mid"]
+            reads = [0]
+
+            def hook(path_read, mid=mid, reads=reads):
+                if not path_read.startswith(ws + os.sep):
+                    return
+                reads[0] += 1
+                if reads[0] == mid["after_reads"] + 1 and cur.get(mid["file"]) is not None and not mid_touched:
+                    # between two reads of the walk: rewrite a file in place at a later time
+                    j = mid["file"]
+                    ctx.seam.read_hook = None
+                    ctx.clock.advance(10**9)
+                    write(j, fresh(7, len(cur[j]) if mid["same_len"] else None), "same_len" if mid["same_len"] else "diff_len")
+                    mid_touched.add(j)
+                    ctx.probe("mutation_during_hashing")
+
+            ctx.seam.read_hook = hook
         if kind == "get":
             info = fs.info(p) if (op["with_info"] and cur.get(i) is not None) else None
             meta, hi = state.get(p, fs, info=info)
@@ -298,6 +322,17 @@ def execute(sc, ctx):
             meta, hi = hash_file(p, fs, "md5", state=state, info=info)
             judge(i, hi.name, hi.value, "hash_file")
             note_saved([i])
+        elif kind == "hash_file_legacy":
+            if cur.get(i) is None:
+                continue
+            meta, hi = hash_file(p, fs, "md5-dos2unix", state=state)
+            want = model.ref_digest("md5-dos2unix", cur[i])
+            if hi.name != "md5-dos2unix":
+                ctx.violate("wrong-algorithm-returned", "hash_file:md5-dos2unix", f"{files[i]}: {hi.name}")
+            elif hi.value != want:
+                r = row.get(p)
+                ctx.violate("stale-or-wrong-hash", "hash_file:md5-dos2unix", f"{files[i]}: returned {hi.value[:8]} want {want[:8]}")
+            row.pop(p, None)  # the row now belongs to another algorithm
         elif kind == "build_dry":
             if not any(v is not None for v in cur.values()):
                 continue
@@ -306,18 +341,26 @@ def execute(sc, ctx):
             want_files = {files[j] for j in range(len(files)) if cur.get(j) is not None}
             if set(got) != want_files:
                 ctx.violate("build-listing", "paths", f"got {sorted(got)[:5]} want {sorted(want_files)[:5]}")
+            ctx.seam.read_hook = None
             for j in range(len(files)):
-                if cur.get(j) is not None and files[j] in got:
+                # a file rewritten while this very call was hashing may legitimately be
+                # reported with either content; what must not happen is a stale row LATER
+                if cur.get(j) is not None and files[j] in got and j not in mid_touched:
                     judge(j, got[files[j]].name, got[files[j]].value, "build(dry_run)")
-            note_saved(range(len(files)))
+            note_saved([j for j in range(len(files)) if j not in mid_touched])
+            for j in mid_touched:
+                row.pop(path(j), None)
         elif kind == "build_entries":
             ents = list(build_entries(ws, fs, compute_hash=True, state=state))
+            ctx.seam.read_hook = None
             by = {"/".join(e.key): e for e in ents}
             for j in range(len(files)):
                 e = by.get(files[j])
-                if cur.get(j) is not None and e is not None and e.hash_info:
+                if cur.get(j) is not None and e is not None and e.hash_info and j not in mid_touched:
                     judge(j, e.hash_info.name, e.hash_info.value, "build_entries")
-            note_saved(range(len(files)))
+            note_saved([j for j in range(len(files)) if j not in mid_touched])
+            for j in mid_touched:
+                row.pop(path(j), None)
         elif kind == "snap_index":
             old_index = imd5(ibuild(ws, fs), state=state)
             old_index_bytes = dict(cur)
